@@ -894,14 +894,18 @@ class StandardHamiltonian(EnergyOperator):
         self._prior_sampling_dtype = prior_sampling_dtype
         self._ic_samp = ic_samp
         self._domain = lh.domain
+        self._offset = 0.
 
     def apply(self, x):
         self._check_input(x)
         lhx, prx = self._lh(x), self._prior(x)
+        res = lhx + prx
+        if self._offset != 0.:
+            res = res + self._offset
         if not x.want_metric or self._ic_samp is None:
-            return lhx + prx
+            return res
         met = SamplingEnabler(lhx.metric, prx.metric, self._ic_samp)
-        return (lhx+prx).add_metric(met)
+        return res.add_metric(met)
 
     @property
     def prior_energy(self):
@@ -928,7 +932,10 @@ class StandardHamiltonian(EnergyOperator):
                 psdt = {kk: vv for kk, vv in psdt.items() if kk in lh1.domain.keys()}
             else:
                 psdt = {kk: psdt for kk in lh1.domain.keys()}
-        return out, StandardHamiltonian(lh1, self._ic_samp, psdt)
+        res = StandardHamiltonian(lh1, self._ic_samp, psdt)
+        # The prior energy of the constant part belongs to the value
+        res._offset = self._offset + 0.5*c_inp.s_vdot(c_inp).real
+        return out, res
 
 
 class AveragedEnergy(EnergyOperator):
